@@ -38,6 +38,9 @@ TAILS = {
 ADDRS = {0: 0x1000, 1: 0x0ffc}
 CHUNK = 8192
 
+WORKTMP = os.path.join(core.VERIF, ".work", "tmp")
+os.makedirs(WORKTMP, exist_ok=True)
+
 OCTAL_ADDR = {"agc", "pdp8"}
 NO_RANGE_PARSE = {"tms1000", "tms1100"}
 
@@ -223,6 +226,54 @@ def cli_item(item):
         shutil.rmtree(d, ignore_errors=True)
 
 
+COVER_CPUS = ["6502", "65816", "z80", "8051", "stm8", "6809", "68hc08", "8048"]
+COVER_LAYOUTS = [(0xfffa, 6), (0xfffa, 7), (0xfffa, 8), (0x1fff0, 17), (0x0, 5), (0xff00, 0x101)]
+
+
+def cover_data(cpu, addr, n):
+    r = random.Random(zlib.crc32(("cover:%s:%x:%d" % (cpu, addr, n)).encode()))
+    return bytes(r.getrandbits(8) for _ in range(n))
+
+
+def cli_cover_item(item):
+    """whole-image disassembly through the real CLI (`naken_util -<cpu> -bin -address A -disasm`): every
+    instruction of the decoder walk that lies inside the loaded image must be printed (range reaches its end)."""
+    exe, cpu, addr, n = item
+    data = cover_data(cpu, addr, n)
+    name = "cover-%x-%d" % (addr, n)
+    vd = core.get_vdrv(10)
+    vd.set_timeout(4)
+    res = {"cover": {"cpu": cpu, "name": name, "addr": addr, "n": n, "viol": [], "status": "ran"}}
+    end = addr + n - 1
+    try:
+        steps = vd.walk(cpu, addr, end, addr, data)
+    except driver.Died:
+        res["cover"]["status"] = "walk-died"
+        return res
+    if [s for s in steps if s[1] <= 0]:
+        res["cover"]["status"] = "stuck-decoder"
+        return res
+    d = tempfile.mkdtemp(prefix="c08_", dir=WORKTMP)
+    try:
+        core.write_tmp(d, "f.bin", data)
+        o = proc.run([exe, "-" + cpu, "-bin", "-address", "0x%x" % addr, "-disasm", "f.bin"], cwd=d, cpu_s=5,
+                     stdin_data=b"quit\n")
+        if o.san or o.signal or o.timed_out:
+            res["cover"]["status"] = "died"      # judged by the other CLI cases
+            return res
+        L = set(parse_addrs(cpu, o.stdout))
+        W = [a for a, k in steps if a + k - 1 <= end]
+        res["cover"]["steps"] = len(W)
+        res["cover"]["lines"] = len(L)
+        miss = [a for a in W if a not in L]
+        if miss:
+            res["cover"]["viol"].append(("cli-range-skips", "naken_util -%s -bin -address 0x%x -disasm on %d bytes: "
+                                         "instruction at 0x%x (decoder walk) never printed" % (cpu, addr, n, miss[0])))
+        return res
+    finally:
+        shutil.rmtree(d, ignore_errors=True)
+
+
 def cli_data(cpu, fname):
     r = random.Random(zlib.crc32(("%s:%s" % (cpu, fname)).encode()))
     if fname == "prand300":
@@ -342,6 +393,23 @@ def main(run):
         for k, desc in c["viol"]:
             run.violation("%s/%s" % (c["cpu"], k), {"phase": "cli", "cpu": c["cpu"], "name": c["name"]}, desc,
                           instance=c["name"])
+    # --- C2: whole-image coverage through the CLI
+    names = {c["name"] for c in cpus}
+    cov_items = [(exe, cpu, a, n) for cpu in COVER_CPUS if cpu in names for a, n in COVER_LAYOUTS]
+    ncover = 0
+    for r in core.pmap(cli_cover_item, cov_items, chunk=2):
+        if run.handle_common(r) or "_crash" in r:
+            continue
+        c = r["cover"]
+        run.count()
+        if c["status"] == "ran":
+            ncover += 1
+            run.nt(("cli-cover", c["cpu"], c["name"]))
+        for k, desc in c["viol"]:
+            run.violation("%s/%s" % (c["cpu"], k), {"phase": "cover", "cpu": c["cpu"], "addr": c["addr"], "n": c["n"]}, desc,
+                          instance=c["name"])
+    run.cov["cli_cover_runs_compared"] = ncover
+    run.require("CLI whole-image coverage compared on >= 20 layouts", ncover >= 20)
     run.cov["sweep_decodes"] = sum(sum(v.values()) for v in lens_seen.values())
     run.cov["length_histogram_per_cpu"] = {c: {str(k): v for k, v in sorted(h.items())} for c, h in sorted(lens_seen.items())}
     run.cov["ranges"] = nranges
@@ -383,6 +451,10 @@ def replay_keys(run, cases):
                 for res in r["ranges"]:
                     for k, desc in res["viol"]:
                         tmp.violation("%s/%s" % (res["cpu"], k), c, desc)
+            elif c.get("phase") == "cover":
+                r = cli_cover_item((core.ARTS["san"]["naken_util"], c["cpu"], c["addr"], c["n"]))
+                for k, desc in r["cover"]["viol"]:
+                    tmp.violation("%s/%s" % (c["cpu"], k), c, desc)
             elif c.get("phase") == "cli":
                 r = cli_item((core.ARTS["san"]["naken_util"], c["cpu"], c["name"], cli_data(c["cpu"], c["name"])))
                 for k, desc in r["cli"]["viol"]:
